@@ -138,14 +138,24 @@ pub fn rng_text(r: &Rng) -> String {
 
 pub fn field_attr(f: &Field) -> String {
     let kw = if f.kw_bit { "bit" } else { "bits" };
+    let huge_hi0 = f.huge.as_ref().filter(|h| h.part == "hi0").map(|h| h.value);
     let range = if f.list {
-        let inner: Vec<String> = f.ranges.iter().map(rng_text).collect();
+        let mut inner: Vec<String> = f.ranges.iter().map(rng_text).collect();
+        if let Some(v) = huge_hi0 {
+            inner[0] = format!("{}..={}", f.ranges[0].lo, v);
+        }
         format!("[{}]", inner.join(", "))
+    } else if let Some(v) = huge_hi0 {
+        format!("{}..={}", f.ranges[0].lo, v)
     } else {
         rng_text(&f.ranges[0])
     };
     let access = f.access.text().map(|a| a.to_string());
-    let stride = f.array.as_ref().and_then(|a| a.stride.map(|st| if a.colon { format!("stride: {}", st) } else { format!("stride = {}", st) }));
+    let huge_stride = f.huge.as_ref().filter(|h| h.part == "stride").map(|h| h.value);
+    let stride = f.array.as_ref().and_then(|a| {
+        let st: Option<u64> = huge_stride.or(a.stride.map(|x| x as u64));
+        st.map(|st| if a.colon { format!("stride: {}", st) } else { format!("stride = {}", st) })
+    });
     // (range, access, stride) in one of the six orders
     let perm: [usize; 3] = match f.arg_order % 6 {
         0 => [0, 1, 2],
